@@ -327,6 +327,80 @@ func TestDrv_C01(t *testing.T) {
 			samples = append(samples, pl.reset["text"])
 		}
 	}
+	// single consultations of the constant pacer at points no closed loop reaches: the edges of every comparison in the
+	// arithmetic, hit counts up to MaxUint64, elapsed times up to MaxInt64
+	npts := 400
+	if thorough() {
+		npts = 4000
+	}
+	fs := []int64{1, 2, 3, 7, 1000, 1000000007, math.MaxInt64}
+	ps := []int64{1, 2, 3, 1000, int64(time.Second), int64(time.Hour), math.MaxInt64 / 10, math.MaxInt64}
+	for i := 0; i < npts; i++ {
+		f, p := fs[r.Intn(len(fs))], ps[r.Intn(len(ps))]
+		if r.Intn(4) == 0 {
+			f, p = 1+r.Int63n(math.MaxInt64-1), 1+r.Int63n(math.MaxInt64-1)
+		}
+		var e int64
+		switch r.Intn(6) {
+		case 0:
+		case 1:
+			e = p - 1
+		case 2:
+			e = p
+		case 3:
+			e = math.MaxInt64
+		case 4:
+			if p < math.MaxInt64/5 {
+				e = p*int64(1+r.Intn(4)) + int64(r.Intn(3)) - 1
+			}
+		default:
+			e = r.Int63()
+		}
+		if e < 0 {
+			e = 0
+		}
+		expected, interval := uint64(f)*uint64(e/p), uint64(p/f)
+		var h uint64
+		switch r.Intn(9) {
+		case 0:
+		case 1:
+			h = expected - 1
+		case 2:
+			h = expected
+		case 3:
+			h = expected + 1
+		case 4:
+			h = math.MaxUint64
+		case 5:
+			if interval > 0 {
+				h = math.MaxUint64/interval + uint64(r.Intn(3)) - 1 // where the product passes 2^64
+			}
+		default:
+			if interval > 0 {
+				h = math.MaxInt64/interval + uint64(r.Intn(3)) - 1 // the overflow guard's edge
+			} else {
+				h = r.Uint64()
+			}
+		}
+		pl := constantLoop(int(f), time.Duration(p))
+		tr := trs[i%P]
+		pl.reset["stall_mode"] = "point"
+		tr.Emit("Reset", pl.reset)
+		tr.Emit("Jump", KV{"t": Big(uint64(e)), "hits": Big(h)})
+		var wait time.Duration
+		var stop bool
+		func() {
+			defer func() {
+				if rec := recover(); rec != nil {
+					tr.Emit("Panic", KV{"value": fmt.Sprint(rec), "t": Big(uint64(e)), "hits": Big(h)})
+				}
+			}()
+			wait, stop = pl.pacer.Pace(time.Duration(e), h)
+			tr.Emit("Consult", KV{"t": Big(uint64(e)), "hits": Big(h), "wsign": sign64(int64(wait)), "wait": Big(abs64(int64(wait))), "stop": stop,
+				"ediv": divWitness(uint64(e), uint64(p))})
+		}()
+		consults++
+	}
 	events := 0
 	for _, tr := range trs {
 		events += tr.N
